@@ -141,6 +141,32 @@ func runC09(r *mon.Run) {
 	r.Assume("the harness shares nothing between jobs except read-only inputs; each goroutine writes only its own result slot; no probes are planted in this binary's workloads")
 	jobs := c09Jobs(r)
 	res := &c09Results{outs: make([]map[string][]string, len(jobs))}
+	// concurrent rounds come first: state that is filled lazily (caches, counters) is then written for the
+	// first time while 16 goroutines are running, which is where an unsynchronised global shows up as a race
+	rounds := r.Pick(3, 8)
+	const G = 16
+	for round := 0; round < rounds; round++ {
+		order := r.Rand("C09/conc", int64(round)).Perm(len(jobs))
+		var wg sync.WaitGroup
+		start := make(chan struct{})
+		hashes := make([]string, len(jobs))
+		for g := 0; g < G; g++ {
+			wg.Add(1)
+			go func(g int) {
+				defer wg.Done()
+				<-start
+				for k := g; k < len(order); k += G {
+					i := order[k]
+					hashes[i] = jobs[i].run()
+				}
+			}(g)
+		}
+		close(start)
+		wg.Wait()
+		for i, h := range hashes {
+			res.note(i, h, fmt.Sprintf("concurrent round %d (16 goroutines)", round))
+		}
+	}
 	// sequential permutations
 	nperm := r.Pick(3, 8)
 	for p := 0; p < nperm; p++ {
@@ -171,31 +197,6 @@ func runC09(r *mon.Run) {
 			jobs[j].run()
 			res.note(i, h1, "rendered before another job")
 			res.note(i, jobs[i].run(), "fresh build after another job")
-		}
-	}
-	// concurrent rounds
-	rounds := r.Pick(3, 8)
-	const G = 16
-	for round := 0; round < rounds; round++ {
-		order := r.Rand("C09/conc", int64(round)).Perm(len(jobs))
-		var wg sync.WaitGroup
-		start := make(chan struct{})
-		hashes := make([]string, len(jobs))
-		for g := 0; g < G; g++ {
-			wg.Add(1)
-			go func(g int) {
-				defer wg.Done()
-				<-start
-				for k := g; k < len(order); k += G {
-					i := order[k]
-					hashes[i] = jobs[i].run()
-				}
-			}(g)
-		}
-		close(start)
-		wg.Wait()
-		for i, h := range hashes {
-			res.note(i, h, fmt.Sprintf("concurrent round %d (16 goroutines)", round))
 		}
 	}
 	r.Put("goroutines", G)
